@@ -189,6 +189,25 @@ fn main() {
             }
         }
     }
+    // random (length, class) points beyond the ladder, seeded
+    let nrand = if thorough { 6000u64 } else { 600 };
+    for k in 0..nrand {
+        let i = idx;
+        idx += 1;
+        if !run.want(i) {
+            continue;
+        }
+        let mut rng = run.rng(i, 1);
+        let (m, mname) = LOSSLESS[rng.usize(LOSSLESS.len())];
+        let class = CLASSES[rng.usize(CLASSES.len())];
+        let top = if thorough { 1usize << 20 } else { 1usize << 16 };
+        let len = match k % 3 { 0 => rng.usize(600), 1 => rng.usize(70_000), _ => rng.usize(top) };
+        run.case(i, &format!("{mname}|{class}|random-len|2^{}", (len.max(1)).ilog2()), json!({"selector": mname, "class": class, "len": len}), |c| {
+            let d = gen_content(&mut rng, class, len);
+            c.count("triples", 1);
+            check_lossless(c, m, mname, class, &d);
+        });
+    }
     // selectors whose compressor is expected to refuse
     for &(m, mname) in COMPRESS_ONLY_ERR {
         let i = idx;
